@@ -285,7 +285,6 @@ def check(ctx):
         "tlc_generated_schedules": n_tlc_jobs,
         "probe_group_executions": len(probe_segs),
         "rejections_by_signature": sig_counts,
-        "impl_divergences": 0,
         "exhaustive": False,
     }
     ctx.notes.append("lockstep comparison with the Impl layer is not possible through yamux (real chunking / window updates differ from "
